@@ -10,6 +10,17 @@ PROPS = {
             {'template': 'units/c07_binop_plan.rs.in', 'modes': [[]], 'canary': True},
         ],
         'kani': [{'name': 'c04', 'jobs': 8, 'timeout': 1500}],
+        # one concrete execution per documented message on the REAL crates (the Display impl that renders the
+        # error value is outside both verifiers; the contracts pin the value, these pin its text)
+        'pins': [
+            ('stdlib::py_mod_i64', {'a': 7, 'b': 0}), ('stdlib::py_floor_div_i64', {'a': 7, 'b': 0}),
+            ('stdlib::py_mod', {'l': {'i': 1}, 'r': {'i': 0}}), ('stdlib::py_mod', {'l': {'f': '1.5'}, 'r': {'f': '-0.0'}}),
+            ('stdlib::py_floor_div', {'l': {'i': 1}, 'r': {'f': '0.0'}}), ('stdlib::py_div', {'l': {'i': 1}, 'r': {'i': 0}}),
+            ('stdlib::py_div', {'l': {'f': '2.5'}, 'r': {'f': '0.0'}}), ('stdlib::py_mod_f64', {'a': '1.0', 'b': '0.0'}),
+            ('stdlib::py_floor_div_f64', {'a': '1.0', 'b': '-0.0'}),
+            ('stdlib::py_div', {'l': {'i': 7}, 'r': {'i': 2}}), ('stdlib::py_mod', {'l': {'i': -7}, 'r': {'i': 3}}),
+            ('stdlib::py_floor_div', {'l': {'f': '-7.0'}, 'r': {'i': 2}}),
+        ],
         'not_covered': [
             'how emit_binop_expr splices the planned helper path and operands into the output token stream (quote!/TokenStream; see C01); compound-assignment desugaring',
             'IEEE-754 division, fmod and floor themselves (hardware / libm)',
@@ -25,6 +36,15 @@ PROPS = {
             {'template': 'units/c05_stdlib_strings.rs.in', 'modes': [['MODE_OK'], ['MODE_ERR']], 'canary': True},
         ],
         'kani': [],
+        'pins': [
+            ('stdlib::str_index', {'s': 'héllo', 'i': 5}), ('stdlib::str_index', {'s': 'héllo', 'i': -6}), ('stdlib::str_index', {'s': 'héllo', 'i': -4}),
+            ('stdlib::str_slice', {'s': 'héllo', 'start': None, 'end': None, 'step': 0}),
+            ('stdlib::str_slice', {'s': 'héllo', 'start': None, 'end': None, 'step': -1}),
+            ('stdlib::list_get', {'list': [1, 2, 3], 'i': 3}), ('stdlib::list_get', {'list': [1, 2, 3], 'i': -4}), ('stdlib::list_get_mut', {'list': [], 'i': 0}),
+            ('stdlib::list_slice', {'list': [1, 2, 3], 'start': None, 'end': None, 'step': 0}),
+            ('stdlib::dict_get', {'keys': [1, 2], 'key': 5}), ('stdlib::range', {'a': 0, 'b': 5, 'c': 0}),
+            ('core::str_char_at', {'s': 'abc', 'i': 3}), ('core::str_slice', {'s': 'abc', 'start': 1, 'end': None, 'step': 0}),
+        ],
         'not_covered': [
             'parsing of [a:b:c] / [::c] and the emitter\'s choice of helper and argument order (syntax-tree / TokenStream code; see C01)',
             'HashMap\'s own behaviour is vstd\'s model (obeys_key_model)',
